@@ -119,6 +119,36 @@ def run(chk, prop="C02"):
         miss = [k for k in cases if name not in cases[k]]
         chk.ob(R + "cover", name, "explicit case in all three tables", not miss, fn["getNumPoints"].where, "no case in %s" % miss if miss else "")
 
+    # ---- rules whose Lagrange basis carries a non-constant factor span factor(x) * P, not P: the listed monomials are then not in the span
+    chk.rule(R + "span", "the monomials listed by getGlobalPolynomialSpace are in the span of the basis: the global Lagrange cache multiplies every basis function by a factor that is the "
+                         "constant 1; a rule with a factor that depends on x (zero-boundary modification) reproduces / integrates factor(x) * P and none of the listed monomials")
+    nspan = 0
+    for cf in db.all_functions(["SparseGrids/tsgCacheLagrange.hpp"]):
+        if not cf.d.get("isctor") and "CacheLagrange" not in cf.key:
+            continue
+        for q in cf.walk():
+            if q.get("k") != "ConditionalOperator":
+                continue
+            c0 = strip(q["c"][0])
+            if c0 is None or c0.get("k") != "BinaryOperator" or c0.get("op") != "==":
+                continue
+            en = [x for x in walk(c0) if x.get("k") == "DeclRefExpr" and "enumc" in x]
+            if not en or not any((callee(x) or "").endswith("::getRule") for x in walk(c0)):
+                continue
+            tb, fb = strip(q["c"][1]), strip(q["c"][2])
+            def depends_on_x(e):
+                return any(x.get("k") == "DeclRefExpr" and x.get("var") == "x" for x in walk(e)) or any(x.get("k") in ("ArraySubscriptExpr",) and "x" in txt(x) for x in walk(e))
+            if not (depends_on_x(tb) or depends_on_x(fb)):
+                continue
+            nspan += 1
+            rname = short(en[0]["enumc"])
+            chk.saw(cf)
+            if txt(tb).replace(" ", "") in ("x*x-1", "x*x-1.0") and "CacheLagrange<" in cf.key and "Derivative" not in cf.key and rname in rules:
+                chk.ob(R + "span", rname, "basis factor is the constant 1", False, cf.loc(q), "the basis of %s is multiplied by `%s`: the grid reproduces (%s) * P, the listed powers 0..k are not in that span" % (rname, txt(tb), txt(tb)),
+                       "factor 1 for every rule with a listed polynomial space")
+    chk.floor(R + "span", nspan, 1, "rule-dependent basis factors in the Lagrange cache")
+    chk.ob(R + "span", "(all other global rules)", "basis factor is the constant 1", True, "SparseGrids/tsgCacheLagrange.hpp", "the factor is selected by a test on one rule only")
+
     if prop == "C02":
         # custom tabulated: exactness comes from the user table
         chk.rule("C02-D3.route", "integrate() is the weighted sum: GridGlobal::integrate obtains its weights from getQuadratureWeights on the same point set; the Sequence and Fourier routes read the basis integrals")
